@@ -15,15 +15,15 @@ func chanPtr[C any](ch C) uintptr {
 }
 
 //go:norace
-func (t *Thread) chan1(send bool, ch uintptr, capa, ln int) {
+func (t *Thread) chan1(send bool, ref any, ch uintptr, capa, ln int) {
 	t.req.kind = OpChan
 	t.req.lock = nil
 	t.req.ncase = 1
 	t.req.hasDefault = false
-	t.req.cases[0] = caseReq{send: send, ch: ch, cap: int32(capa), len: int32(ln)}
+	t.req.cases[0] = caseReq{send: send, ref: ref, ch: ch, cap: int32(capa), len: int32(ln)}
 	// blocking channel operations of daemon threads (the applier's and the policy
 	// goroutine's idle loops) are voluntary switch points
-	t.req.yield = t.daemon
+	t.req.yield = t.daemon && daemonYield
 	t.park()
 }
 
@@ -35,6 +35,34 @@ func (t *Thread) afterChanOp() {
 	}
 }
 
+// ----- shadow queues (sequential driver only; never under the race build) ------------------------
+
+var (
+	shadowOn bool
+	shadow   map[uintptr][]any
+)
+
+// SetShadow turns the recording of channel contents on or off (reset at every execution).
+func SetShadow(on bool) {
+	shadowOn = on
+	shadow = map[uintptr][]any{}
+}
+
+// ShadowOf returns the values currently queued in ch, oldest first (only with SetShadow(true)).
+func ShadowOf[C any](ch C) []any { return shadow[chanPtr(ch)] }
+
+func shadowPush(ch uintptr, v any) {
+	if cap := len(shadow[ch]); cap >= 0 {
+		shadow[ch] = append(shadow[ch], v)
+	}
+}
+
+func shadowPop(ch uintptr) {
+	if q := shadow[ch]; len(q) > 0 {
+		shadow[ch] = q[1:]
+	}
+}
+
 // Send is `ch <- v`.
 func Send[T any](ch chan<- T, v T) {
 	t := cur()
@@ -42,7 +70,10 @@ func Send[T any](ch chan<- T, v T) {
 		ch <- v
 		return
 	}
-	t.chan1(true, chanPtr(ch), cap(ch), len(ch))
+	t.chan1(true, ch, chanPtr(ch), cap(ch), len(ch))
+	if shadowOn && cap(ch) > 0 {
+		shadowPush(chanPtr(ch), v)
+	}
 	ch <- v
 	t.afterChanOp()
 }
@@ -53,8 +84,11 @@ func Recv[T any](ch <-chan T) T {
 	if t == nil {
 		return <-ch
 	}
-	t.chan1(false, chanPtr(ch), cap(ch), len(ch))
+	t.chan1(false, ch, chanPtr(ch), cap(ch), len(ch))
 	v := <-ch
+	if shadowOn && cap(ch) > 0 {
+		shadowPop(chanPtr(ch))
+	}
 	t.afterChanOp()
 	return v
 }
@@ -66,20 +100,23 @@ func Recv2[T any](ch <-chan T) (T, bool) {
 		v, ok := <-ch
 		return v, ok
 	}
-	t.chan1(false, chanPtr(ch), cap(ch), len(ch))
+	t.chan1(false, ch, chanPtr(ch), cap(ch), len(ch))
 	v, ok := <-ch
+	if shadowOn && cap(ch) > 0 {
+		shadowPop(chanPtr(ch))
+	}
 	t.afterChanOp()
 	return v, ok
 }
 
 //go:norace
-func (t *Thread) closePoint(ch uintptr, capa, ln int) {
+func (t *Thread) closePoint(ref any, ch uintptr, capa, ln int) {
 	t.req.kind = OpClose
 	t.req.obj = ch
 	t.req.lock = nil
 	t.req.ncase = 0
 	t.req.yield = false
-	t.req.cases[0] = caseReq{ch: ch, cap: int32(capa), len: int32(ln)}
+	t.req.cases[0] = caseReq{ref: ref, ch: ch, cap: int32(capa), len: int32(ln)}
 	t.park()
 }
 
@@ -90,7 +127,7 @@ func Close[T any](ch chan<- T) {
 		close(ch)
 		return
 	}
-	t.closePoint(chanPtr(ch), cap(ch), len(ch))
+	t.closePoint(ch, chanPtr(ch), cap(ch), len(ch))
 	close(ch)
 }
 
@@ -130,7 +167,7 @@ func BlockForever() {
 
 // SelCase is one communication clause of a rewritten select statement.
 type SelCase interface {
-	info() (send bool, ch uintptr, capa, ln int)
+	info() (send bool, ref any, ch uintptr, capa, ln int)
 	do()
 	refl() reflect.SelectCase
 	set(v reflect.Value, ok bool)
@@ -146,10 +183,15 @@ func RecvCase[T any](ch <-chan T) *RCase[T] { return &RCase[T]{ch: ch} }
 
 func (c *RCase[T]) Val() T          { return c.v }
 func (c *RCase[T]) Val2() (T, bool) { return c.v, c.ok }
-func (c *RCase[T]) info() (bool, uintptr, int, int) {
-	return false, chanPtr(c.ch), cap(c.ch), len(c.ch)
+func (c *RCase[T]) info() (bool, any, uintptr, int, int) {
+	return false, c.ch, chanPtr(c.ch), cap(c.ch), len(c.ch)
 }
-func (c *RCase[T]) do() { c.v, c.ok = <-c.ch }
+func (c *RCase[T]) do() {
+	c.v, c.ok = <-c.ch
+	if shadowOn && cap(c.ch) > 0 {
+		shadowPop(chanPtr(c.ch))
+	}
+}
 func (c *RCase[T]) refl() reflect.SelectCase {
 	return reflect.SelectCase{Dir: reflect.SelectRecv, Chan: reflect.ValueOf(c.ch)}
 }
@@ -169,10 +211,15 @@ type SCase[T any] struct {
 
 func SendCase[T any](ch chan<- T, v T) *SCase[T] { return &SCase[T]{ch: ch, v: v} }
 
-func (c *SCase[T]) info() (bool, uintptr, int, int) {
-	return true, chanPtr(c.ch), cap(c.ch), len(c.ch)
+func (c *SCase[T]) info() (bool, any, uintptr, int, int) {
+	return true, c.ch, chanPtr(c.ch), cap(c.ch), len(c.ch)
 }
-func (c *SCase[T]) do() { c.ch <- c.v }
+func (c *SCase[T]) do() {
+	if shadowOn && cap(c.ch) > 0 {
+		shadowPush(chanPtr(c.ch), c.v)
+	}
+	c.ch <- c.v
+}
 func (c *SCase[T]) refl() reflect.SelectCase {
 	return reflect.SelectCase{Dir: reflect.SelectSend, Chan: reflect.ValueOf(c.ch), Send: reflect.ValueOf(&c.v).Elem()}
 }
@@ -185,7 +232,7 @@ func (t *Thread) selectPoint(hasDefault bool, n int, infos *[MaxCases]caseReq) i
 	t.req.ncase = n
 	t.req.hasDefault = hasDefault
 	t.req.cases = *infos
-	t.req.yield = t.daemon && !hasDefault
+	t.req.yield = t.daemon && daemonYield && !hasDefault
 	return t.park()
 }
 
@@ -217,8 +264,8 @@ func Select(hasDefault bool, cases ...SelCase) int {
 	}
 	var infos [MaxCases]caseReq
 	for i, c := range cases {
-		s, ch, capa, ln := c.info()
-		infos[i] = caseReq{send: s, ch: ch, cap: int32(capa), len: int32(ln)}
+		s, ref, ch, capa, ln := c.info()
+		infos[i] = caseReq{send: s, ref: ref, ch: ch, cap: int32(capa), len: int32(ln)}
 	}
 	idx := t.selectPoint(hasDefault, len(cases), &infos)
 	if idx < len(cases) {
